@@ -32,6 +32,7 @@ fn rogue(pid: &Pubkey, accounts: &[AccountInfo], data: &[u8]) -> ProgramResult {
         match script.first() {
             Some(1) if script.len() >= 25 => solana_cpi::set_return_data(&script[1..25]),
             Some(2) if script.len() >= 3 => { let n = u16::from_le_bytes([script[1], script[2]]) as usize; solana_cpi::set_return_data(&vec![7u8; n]); }
+            Some(3) if script.len() >= 2 => solana_cpi::set_return_data(&script[1..]),     // the bytes as scripted, whatever their length
             _ => {}
         }
         return Ok(());
@@ -281,6 +282,8 @@ impl Sim {
                     Some(1) if data.len() >= 25 => format!("(DScript (Some (RTriple {} {} {})))", u64::from_le_bytes(data[1..9].try_into().unwrap()),
                         u64::from_le_bytes(data[9..17].try_into().unwrap()), u64::from_le_bytes(data[17..25].try_into().unwrap())),
                     Some(2) if data.len() >= 3 => format!("(DScript (Some (RMalformed {})))", u16::from_le_bytes([data[1], data[2]])),
+                    // kind 3 returns data[1..] verbatim; the scripts only use it with a length other than 24 (a reply with trailing bytes)
+                    Some(3) if data.len() >= 2 && data.len() != 25 => format!("(DScript (Some (RMalformed {})))", data.len() - 1),
                     _ => "(DScript None)".into(),
                 }
             }
